@@ -22,11 +22,12 @@ type State struct {
 	Alloc  Term
 	Defers []deferRec
 	Ghost  map[string]Term // ghost call records: called:<name>, failed:<name>
+	GhostUnknown bool      // absent records are unknown (inside / after a loop) rather than false
 	Gen    int // heap generation: keys absent from Heap denote the generation's initial constant
 }
 
 func (s *State) clone() *State {
-	n := &State{Reach: s.Reach, Alloc: s.Alloc, Gen: s.Gen}
+	n := &State{Reach: s.Reach, Alloc: s.Alloc, Gen: s.Gen, GhostUnknown: s.GhostUnknown}
 	n.Heap = make(map[string]Term, len(s.Heap))
 	for k, v := range s.Heap {
 		n.Heap[k] = v
@@ -162,6 +163,9 @@ func (c *Ctx) mergeStates(ins []*State) *State {
 		for k := range s.Ghost {
 			gk[k] = true
 		}
+		if s.GhostUnknown {
+			out.GhostUnknown = true
+		}
 	}
 	if len(gk) > 0 {
 		out.Ghost = map[string]Term{}
@@ -171,6 +175,9 @@ func (c *Ctx) mergeStates(ins []*State) *State {
 				v, ok := s.Ghost[k]
 				if !ok {
 					v = TFalse
+					if s.GhostUnknown {
+						v = c.fresh("ghostunk", SBool)
+					}
 				}
 				vals = append(vals, v)
 			}
